@@ -602,6 +602,32 @@ func rtDeepEq(ex *Exec, fn *ssa.Function, args []Value) (Value, *Panic) {
 	return ex.deepEq(nil, a, b, 0, map[[2]Container]bool{}), nil
 }
 
+func isNetIP(t types.Type) bool {
+	n, ok := t.(*types.Named)
+	return ok && n.Obj().Pkg() != nil && n.Obj().Pkg().Path() == "net" && n.Obj().Name() == "IP"
+}
+
+// ipTo4 mirrors net.IP.To4 for slices whose v4-in-v6 prefix is concrete.
+func ipTo4(s *SliceV) *SliceV {
+	if s.len != 16 {
+		return s
+	}
+	for i := 0; i < 12; i++ {
+		t, ok := s.arr.e[s.off+i].(*Term)
+		if !ok || !t.IsConst() {
+			return s
+		}
+		want := uint64(0)
+		if i >= 10 {
+			want = 0xff
+		}
+		if t.k != want {
+			return s
+		}
+	}
+	return &SliceV{arr: s.arr, off: s.off + 12, len: 4, cap: 4}
+}
+
 func isBytesBuffer(t types.Type) bool {
 	n, ok := t.(*types.Named)
 	return ok && n.Obj().Pkg() != nil && n.Obj().Pkg().Path() == "bytes" && n.Obj().Name() == "Buffer"
@@ -685,6 +711,9 @@ func (ex *Exec) deepEq(t types.Type, a, b Value, depth int, seen map[[2]Containe
 		for i := range x.f {
 			var ft types.Type
 			if st != nil {
+				if !st.Field(i).Exported() && !st.Field(i).Embedded() {
+					continue // unexported state is observed through the re-encoding, not here
+				}
 				ft = st.Field(i).Type()
 			}
 			r = ts.And(r, ex.deepEq(ft, x.f[i], y.f[i], depth+1, seen))
@@ -714,6 +743,10 @@ func (ex *Exec) deepEq(t types.Type, a, b Value, depth int, seen map[[2]Containe
 		return r
 	case *SliceV:
 		y, ok := b.(*SliceV)
+		if ok && t != nil && isNetIP(t) {
+			// net.IP: the 4-byte and the 16-byte (::ffff:a.b.c.d) forms are the same address
+			x, y = ipTo4(x), ipTo4(y)
+		}
 		if !ok || x.len != y.len {
 			return ts.Fals
 		}
